@@ -52,6 +52,31 @@ type Exec struct {
 
 	noRoundChecks bool
 	storeHasAll   bool
+
+	segmentlessFooter bool // a round left a footer tree without any persisted segment
+}
+
+func countOps(b *BatchSpec) int {
+	if b == nil {
+		return 0
+	}
+	n := len(b.Ops)
+	for _, c := range b.Kids {
+		n += countOps(c)
+	}
+	return n
+}
+
+func footerHasSegments(f *moss.Footer) bool {
+	if len(f.SegmentLocs) > 0 {
+		return true
+	}
+	for _, c := range f.ChildFooters {
+		if footerHasSegments(c) {
+			return true
+		}
+	}
+	return false
 }
 
 type evlog struct {
@@ -208,6 +233,8 @@ func (e *Exec) detail(extra map[string]string) map[string]string {
 		"shape":          e.lastShape,
 	}
 	kids, merges, childOnly, delKid, emptyKey := false, false, false, false, false
+	structuralOnly := false
+	d["segmentlessFooter"] = fmt.Sprint(e.segmentlessFooter)
 	scan := func(ops []Op) {
 		for i, op := range ops {
 			if i > e.opIdx && e.c.Drivers == nil {
@@ -230,6 +257,9 @@ func (e *Exec) detail(extra map[string]string) map[string]string {
 			}
 			if len(op.B.DelKids) > 0 {
 				delKid = true
+			}
+			if countOps(op.B) == 0 && (len(op.B.Kids) > 0 || len(op.B.DelKids) > 0) {
+				structuralOnly = true
 			}
 			var walk func(b *BatchSpec)
 			walk = func(b *BatchSpec) {
@@ -259,8 +289,16 @@ func (e *Exec) detail(extra map[string]string) map[string]string {
 	d["childOnlyBatch"] = fmt.Sprint(childOnly)
 	d["delChild"] = fmt.Sprint(delKid)
 	d["emptyKey"] = fmt.Sprint(emptyKey)
+	d["structuralOnlyBatch"] = fmt.Sprint(structuralOnly)
 	for k, v := range extra {
 		d[k] = v
+	}
+	if df, ok := d["diff"]; ok {
+		if strings.Contains(df, "child \"") && (strings.Contains(df, "want present") || strings.Contains(df, "want absent")) {
+			d["diffKind"] = "child-presence"
+		} else {
+			d["diffKind"] = "key"
+		}
 	}
 	return d
 }
@@ -453,6 +491,12 @@ func (e *Exec) onPersistRound() {
 	defer simrt.NoPreempt(false)
 	j := e.checkStore("persist-round")
 	e.fs.MarkOp("round", j, !e.opts.NoSync)
+	if ss, err := e.store.Snapshot(); err == nil && ss != nil {
+		if f, ok := ss.(*moss.Footer); ok && !footerHasSegments(f) {
+			e.segmentlessFooter = true
+		}
+		ss.Close()
+	}
 	e.afterRoundCompactionCheck(j)
 	if e.flag("history") {
 		e.recordRound()
